@@ -426,6 +426,15 @@ inline array &array::operator= (slice const& from)
 }
 inline array &array::operator+= (content const& from)
 {
+	/* own content may move when extended */
+	if (&from == _buf.instance()) {
+		size_t len = from.length();
+		uint8_t *dest = static_cast<uint8_t *>(append(len));
+		if (dest && len) {
+			memcpy(dest, dest - len, len);
+		}
+		return *this;
+	}
 	append(from.length(), from.data());
 	return *this;
 }
